@@ -18,6 +18,7 @@ import JanetModel.Peg.CompileEntry
 import JanetModel.Peg.CompileFlag
 import JanetModel.Peg.Skel
 import JanetModel.Peg.FuelMono
+import JanetModel.Peg.FuelMonoDen
 
 namespace JanetModel.Props.C12
 open JanetModel.Peg
@@ -542,6 +543,29 @@ theorem op_step_mono {ρ : Type} (E : Env) {k k' : OK ρ} (h : Op.KLe k k') (n :
     Op.FLe (Op.step E k n i s pos) (Op.step E k' (n + 1) i s pos) :=
   Op.step_mono E h n i s pos
 
+
+/-- **den_run_fuel_mono.**  The same for the denotational model `Den.run` (Peg/FuelMonoDen.lean). -/
+theorem den_run_fuel_mono {ρ : Type} (E : Env) (fetch : ρ → Option (Instr ρ)) (f g : Nat) (hfg : f ≤ g) (r : ρ) (s : St)
+    (pos : Nat) (hne : Den.run E fetch f r s pos ≠ .error .fuel) : Den.run E fetch g r s pos = Den.run E fetch f r s pos :=
+  Den.run_fuel_mono E fetch f g hfg r s pos hne
+
+/-- **op_eq_den_any_fuel.**  `op_eq_den` without a shared fuel: once the denotation at SOME fuel `f` yields a match `(p, Δ)`,
+    the operational run at EVERY fuel `g ≥ f` ends in exactly `s` extended by `Δ` at position `p`; once it yields a failure,
+    every such run fails; once it raises `e ≠ Err.fuel`, every such run raises `e`. -/
+theorem op_eq_den_any_fuel {ρ : Type} (E : Env) (hE : E.lenprefixLeak = false) (fetch : ρ → Option (Instr ρ))
+    (f g : Nat) (hfg : f ≤ g) (r : ρ) (s : St) (pos : Nat) :
+    (∀ p d, Den.run E fetch f r s pos = .ok (some (p, d)) → Op.run E fetch g r s pos = .ok (some p, s.extend d))
+    ∧ (Den.run E fetch f r s pos = .ok none → ∃ s', Op.run E fetch g r s pos = .ok (none, s') ∧ s.le s')
+    ∧ (∀ e, e ≠ Err.fuel → Den.run E fetch f r s pos = .error e → Op.run E fetch g r s pos = .error e) := by
+  have h2 := op_eq_den E hE fetch g r s pos
+  refine ⟨fun p d hd => ?_, fun hd => ?_, fun e he hd => ?_⟩
+  · have h1 := Den.run_fuel_mono E fetch f g hfg r s pos (by rw [hd]; intro h; cases h)
+    rw [h1, hd] at h2; exact h2
+  · have h1 := Den.run_fuel_mono E fetch f g hfg r s pos (by rw [hd]; intro h; cases h)
+    rw [h1, hd] at h2; exact h2
+  · have h1 := Den.run_fuel_mono E fetch f g hfg r s pos (by rw [hd]; intro h; cases h; exact he rfl)
+    rw [h1, hd] at h2; exact h2
+
 /-- non-vacuity: `(% (<- "a"))` = [ACCUMULATE 3 0; CAPTURE 6 0; LITERAL 1 'a'] on "a": fuel 2 is too little (the answer IS
     `Err.fuel`), fuel 3 suffices (the answer is a match ending at 1), so the hypothesis of `op_run_fuel_mono` holds at f = 3 -/
 def fuelTag (r : ORes) : Nat :=
@@ -555,6 +579,22 @@ example :
     fuelTag (Op.run { text := [97], args := [] , hasBackref := false } (decode ⟨#[17, 3, 0, 13, 6, 0, 0, 1, 97], #[]⟩) 2 0
       (initSt { text := [97], args := [], hasBackref := false } 1024) 0) = 0
     ∧ fuelTag (Op.run { text := [97], args := [], hasBackref := false } (decode ⟨#[17, 3, 0, 13, 6, 0, 0, 1, 97], #[]⟩) 3 0
+      (initSt { text := [97], args := [], hasBackref := false } 1024) 0) = 4 := by
+  decide
+
+/-- non-vacuity for the denotational side: same program, fuel 2 answers `Err.fuel`, fuel 3 a match ending at 1 - so the first
+    premise of `op_eq_den_any_fuel` is met at f = 3 -/
+def denFuelTag (r : DRes) : Nat :=
+  match r with
+  | .error .fuel => 0
+  | .error _ => 1
+  | .ok none => 2
+  | .ok (some (p, _)) => 3 + p
+
+example :
+    denFuelTag (Den.run { text := [97], args := [] , hasBackref := false } (decode ⟨#[17, 3, 0, 13, 6, 0, 0, 1, 97], #[]⟩) 2 0
+      (initSt { text := [97], args := [], hasBackref := false } 1024) 0) = 0
+    ∧ denFuelTag (Den.run { text := [97], args := [], hasBackref := false } (decode ⟨#[17, 3, 0, 13, 6, 0, 0, 1, 97], #[]⟩) 3 0
       (initSt { text := [97], args := [], hasBackref := false } 1024) 0) = 4 := by
   decide
 
